@@ -51,6 +51,10 @@ def draw_order_family(ch, params):
             m["css"] = css if ch.chance(1, 2, "css_form") else {"all": css}
         if i > 0 and ch.chance(1, 6, "extend_list"):
             m["extend"] = sorted(set(ch.draw(i, "ext_cls") for _ in range(1 + ch.draw(2, "n_ext"))), reverse=True)
+        elif i > 0 and ch.chance(1, 6, "extend_false"):
+            # a class that cuts its ancestors off: a class further down that lists both it and one of those ancestors among
+            # its bases must still get the ancestor's files (seeded change C16f-3)
+            m["extend"] = False
         c["media"] = m
         c["media_class"] = ch.chance(1, 3, "media_class")
         classes.append(c)
